@@ -138,13 +138,15 @@ def substitute(text, subs, rel):
 def generate(repo, outdir, drivers_dir):
     info = {"extracted": {}}
 
-    def copy(rel, dst, subs=(), driver=None, strip_tests=True):
+    def copy(rel, dst, subs=(), driver=None, strip_tests=True, extra_driver=None):
         t = read(repo, rel)
         info["extracted"][rel] = {"sha256_16": sha(t), "mode": "whole file" + (" + appended driver" if driver else ""),
                                   "substitutions": [f"{a.strip()} -> {b.strip()}" for a, b in subs]}
         t = substitute(t, subs, rel)
         if strip_tests:
             t = re.sub(r"\n#\[cfg\(test\)\]\nmod tests?;\n", "\n", t)
+        if extra_driver:
+            t += "\n// ---- appended by /verif: generated from this file's own text ----\n" + substitute(open(os.path.join(drivers_dir, extra_driver)).read(), [x for x in subs if x[0] in open(os.path.join(drivers_dir, extra_driver)).read()], rel)
         if driver:
             t += "\n// ---- appended by /verif (driver for private items) ----\n" + open(os.path.join(drivers_dir, driver)).read()
         write_if_changed(os.path.join(outdir, dst), "// GENERATED from /repo/" + rel + " -- do not edit\n" + t)
@@ -154,7 +156,25 @@ def generate(repo, outdir, drivers_dir):
     copy(S + "kv_database.rs", "kv_database.rs")
     copy(S + "write_batch.rs", "write_batch.rs")
     copy(S + "write_manager.rs", "write_manager.rs")
-    copy(S + "write_manager/write_behind.rs", "write_behind.rs", driver="write_behind_driver.rs",
+    # the committer thread's body is reused verbatim: `commit_worker` is cut, its channel receive loop
+    # header is replaced by iteration over an array of arrivals, and the result is appended as
+    # `commit_worker_driven` (so a change inside commit_worker is seen by the harness)
+    wb_src = read(repo, S + "write_manager/write_behind.rs")
+    cw = cut_fn(wb_src, "commit_worker")
+    body = fn_body(cw)
+    anchor = "while let Ok(task) = receiver.recv() {"
+    if body.count(anchor) != 1:
+        raise ExtractError("write_behind.rs: `commit_worker` no longer has exactly one `while let Ok(task) = receiver.recv()` loop")
+    body = body.replace(anchor, "for task in tasks {")
+    body = body.replace("drop(after_commit_sender);", "std::mem::forget(after_commit_sender);")
+    driven = ("\nimpl<Db: KvDatabase> WriteBehind<Db> {\n"
+              "    /// body of `commit_worker` (cut verbatim); only the loop header `while let Ok(task) = receiver.recv()`\n"
+              "    /// is replaced by `for task in tasks`, and the final `drop(after_commit_sender)` by a forget\n"
+              "    pub fn commit_worker_driven<const N: usize>(\n        tasks: [WriteTask<Db>; N],\n"
+              "        after_commit_sender: crossbeam_channel::Sender<AfterCommitTask<Db>>,\n"
+              "        shutting_down: &Arc<AtomicBool>,\n        db: &Db,\n    ) {" + body + "}\n}\n")
+    open(os.path.join(drivers_dir, ".commit_worker_driven.rs"), "w").write(driven)
+    copy(S + "write_manager/write_behind.rs", "write_behind.rs", driver="write_behind_driver.rs", extra_driver=".commit_worker_driven.rs",
          subs=[("    collections::{BinaryHeap, HashMap},\n", ""),
                ("use fxhash::FxBuildHasher;", "use fxhash::FxBuildHasher;\nuse crate::shim::{BinaryHeap, HashMap};"),
                ("std::collections::hash_map::Entry::", "crate::shim::hash_map::Entry::"),
